@@ -124,6 +124,10 @@ def run(chk, repo):
     last = docstring_free(take.body)[-1]
     chk.require(isinstance(last, ast.Return), "Stream.take: final return not found")
     counts = _count_exprs(last, mod)
+    for helper in [f for f in take.body if isinstance(f, FuncTypes)]:
+        if any(isinstance(n, ast.Call) and isinstance(n.func, ast.Name) and n.func.id == helper.name
+               for n in ast.walk(last)):
+            counts += _count_exprs(helper, mod)
     chk.require(counts, "Stream.take: general arm has no range()/islice() bound - idiom not recognised")
     for c in counts:
         chk.decide(_is_rounding_of(c, pn), "C03.take", W("Stream.take"), "general arm count: " + unparse(c),
